@@ -594,6 +594,15 @@ func runC09(c *Ctx) {
 					}
 					c.Check("C09-R6", fn.Key()+" retry only on canRetry", c.Pos(br.Node), ok, "Pull may be retried only when canRetry(err) holds for its own error")
 				}
+				// the retry loop is left only by returns: a break hands control to whatever follows the
+				// loop, where Pull's error is no longer the answer
+				if loop := loopAround(fn, h.Node); loop != nil {
+					for _, br := range g.Find(func(n ast.Node) bool { b, ok := n.(*ast.BranchStmt); return ok && (b.Tok == token.BREAK || b.Tok == token.GOTO) }) {
+						if within(loop, br.Node) && core.BranchTarget(fn.Body, br.Node.(*ast.BranchStmt)) == loop {
+							c.Check("C09-R6", fn.Key()+" retry loop left only by returning", c.Pos(br.Node), false, "a break out of the retry loop reaches the code after it, which does not report the last Pull error")
+						}
+					}
+				}
 				// returns after the call: return that error (or a non-nil error when err != nil)
 				for _, ex := range g.Returns() {
 					if !g.Dominates(h.Loc, ex.Loc) || ex.Return == nil {
